@@ -11,7 +11,7 @@ if [ -z "$SKIP_SUITE" ]; then
   echo "suite: $(grep -E '^# (FAIL|ERROR):' $W/check.log | tr -s ' ' | sort | uniq -c | tr '\n' ' ')"
 fi
 cd /verif
-for c in $P "$@"; do
+for c in $P "$@"; do rm -f replays/$c-1-*.json
   MUNGE_REPO=$W ./check $c 2>&1 | grep -E "VIOLATION|KNOWN|done:" | cut -c1-200
   for r in replays/$c-1-*.json; do [ -f "$r" ] && python3 -c "
 import json,sys
